@@ -34,6 +34,8 @@ PROOF = "Gallia.Proofs.C11"
 DRIVER = "c11"
 ORACLE = False
 ASSUMPTIONS = [
+    "the client's view of the ECU state is the fold of updateState (Model/DbLog.lean: session control sets the session and clears the level, an even SecurityAccess sub-function sets level = type - 1, reset clears, the session read-back 62 F1 86 changes the state only when it reports another session) over the replies received so far; a row whose recorded state differs from that fold - everything else agreeing with the model - is reported as a violation of the property with the shrunk history, the per-reply agreement of ECU.update_state with updateState is checked separately (update-state table)",
+    "raw requests are the bytes handed to ECU.send_raw / ECU.request(RawRequest(..)); the stored request bytes are compared with the bytes the scripted transport received; that the logged object re-encodes to its input for all byte strings is C01's encode_decode (storedRequest, stored_request_is_wire)",
     "sqlite durability, the file system and aiosqlite's worker thread are trusted (rows are read back after disconnect()); a statement handed to the connection thread is executed even when the awaiting task is cancelled meanwhile (aiosqlite 0.22 contract, modelled)",
     "asyncio.Queue is FIFO and put() on an unbounded queue does not suspend; join() returns when every put() was matched by task_done(); asyncio.Lock is FIFO and release() only schedules the first waiter (the task that releases runs on to its next real suspension point) - what makes 'exchange ends, mutex released, row queued, state updated' one atomic step; the absence of awaits in that stretch is regenerated from the AST (finally_is_atomic, queue_unbounded)",
     "wall-clock timestamps (datetime.now) are non-decreasing during a run",
@@ -792,7 +794,7 @@ def _first_state_diff(rows, m_rows):
 
 def _state_violation(ctx, case, res, m_rows, k):
     """A row of the real stack records a state that is not the client's view before that request: the view is the fold
-    of `updateState` (Model/DbLog.lean; theorem row_state_is_client_view) over the replies of the exchanges before it -
+    of `updateState` (Model/DbLog.lean; theorems state_is_pre_state, level_survives_same_session_readback) over the replies of the exchanges before it -
     everything else in the row agrees with the model.  Shrink the history (drop exchanges one at a time, cut the tail)
     while such a row remains, then report the history as the failing input."""
     best = (case, res, m_rows, k)
@@ -884,6 +886,30 @@ def _state_corr(ctx):
                          site="ECU.update_state")
     ctx.kind(*["state-update"] * 1)
     ctx.exhaustive_parts.append(f"update_state: {len(pdus)} replies (all second bytes of 50/51/67, session DID variants) x {len(states)} states")
+
+
+def _stored_corr(ctx):
+    """the request object ECU._request logs (`UDSRequest.parse_dynamic(pdu)`, stored as its `.pdu`) against `storedRequest`
+    of the model, over the raw request bytes of `raw_pdus` (the histories of `gen_raw` check the stored rows themselves)"""
+    import random
+    env = _env()
+    S, K = env["S"], env["K"]
+    pdus = [b for _, b in raw_pdus(random.Random(ctx.seed * 7919 + 11), K, S, ctx.pick(2, 12))]
+    out = ctx.lean(["stored " + hx(b) for b in pdus])
+    for b, mo in zip(pdus, out):
+        ctx.ev()
+        try:
+            obj = S.UDSRequest.parse_dynamic(b)
+            impl = hx(bytes(obj.pdu))
+            cls = type(obj).__name__
+        except Exception as e:
+            impl, cls = "raises " + type(e).__name__, "none"
+        if impl != mo:
+            ctx.disagree(f"c11:stored-request:sid={b[:1].hex()}:{cls}",
+                         f"the request object logged for the wire bytes {b.hex()} ({cls}) re-encodes to {impl}; the model stores {mo}",
+                         {"wire": b.hex()}, impl=impl, model=mo, spec_violated=False, site="ECU._request: UDSRequest.parse_dynamic(request.pdu)")
+    ctx.kind("stored-request")
+    ctx.exhaustive_parts.append(f"logged request object vs storedRequest: {len(pdus)} raw byte strings (every sample request: all truncations, over-long, one byte changed; every service / sub-function id of the codec with bodies of length 0..7)")
 
 
 def _shape_of(v, depth=0):
@@ -1202,12 +1228,17 @@ def run(ctx):
                 "point; distinct = distinct case JSON; every case has >= 1 exchange on the wire; non-trivial = all of them "
                 "(each runs the real ECU + DBHandler + sqlite file and is read back); the families multi / tables / life of "
                 "harness/lib/c11x.py: case = tasks with per-call reply scripts and latencies + cancellations + write faults, "
-                "resp. sessions of API calls + cut point + faults, resp. scanner options + constructor / main() steps")
+                "resp. sessions of API calls + cut point + faults, resp. scanner options + constructor / main() steps; raw-bytes: "
+                "histories of 8 raw requests (arbitrary bytes, entry point send_raw / request(RawRequest), any outcome); state-walk: "
+                "histories over the state-driving replies (session control, reset, sendKey, session read-back reporting the held / "
+                "another session) followed by further requests")
     _state_corr(ctx)
     _attrs_corr(ctx)
+    _stored_corr(ctx)
     cases = gen_cases(ctx)
     ctx.exhaustive_parts.append(f"every request kind ({len(_env()['K'])}) x every outcome class ({len(OUTCOMES)}) as a single-exchange history")
     ctx.exhaustive_parts.append("cancellation at every write / read await of multi-await exchanges (pending loop, retries)")
+    ctx.exhaustive_parts.append("raw requests through ECU.send_raw / ECU.request(RawRequest): every sample request's bytes, each of its truncations, over-long by 1..3 bytes, one byte changed; every service id and sub-function id of the live codec registry with bodies of length 0..7")
     ctx.exhaustive_parts.append("UDSScanner through entry_point(): the switch set in the constructor (5 patterns) x ping x properties x tester-present x ecu_reset")
     ctx.exhaustive_parts.append("every single-row write-fault pattern (execute / commit, 1..2 failures) on a burst of 3 queued rows")
     ctx.exhaustive_parts.append("the lifecycle order of DBHandler API calls (with and without discovery) cancelled at every awaited statement")
@@ -1274,7 +1305,10 @@ MANIFEST = {
                    "+ DBHandler + sqlite file: every request kind x outcome class, cancellation at every await, seeded "
                    "histories; 3 concurrent tasks incl. the real tester-present worker over scripted latencies with cancellations "
                    "and injected OperationalErrors; API-call programs in any order, cut at every awaited statement, two sessions per "
-                   "file, all tables read back + PRAGMA foreign_key_check; a real UDSScanner through entry_point()."),
+                   "file, all tables read back + PRAGMA foreign_key_check; a real UDSScanner through entry_point(); raw requests with "
+                   "arbitrary bytes (well-formed, truncated, over-long, odd-length, every service / sub-function id of the codec) through "
+                   "send_raw / request(RawRequest); walks over the state-driving replies with the recorded state judged against the "
+                   "model's fold."),
     "level_note": ("Trusted: Lean kernel, sqlite/aiosqlite/file system durability, asyncio.Queue / asyncio.Lock contracts, wall "
                    "clock monotonicity, the harness. The inner retry loop's outcome is an input of the model (C04 owns it). The "
                    "atomicity of the finally-block, the unbounded queue, the shape of the writer's retry loop, the awaited steps of "
